@@ -275,7 +275,7 @@ CLAIMS = {
                  "timeout is used only for the default sentinel; socket.timeout and EAGAIN/EWOULDBLOCK map to ReadTimeoutError. "
                  "All of it is decided on effect rows (decisions on symbolic atoms + returned term / ordered events), so temporaries, "
                  "reordered independent tests, `a if a < b else b` in place of min(), merged raises and helper extraction do not matter. "
-                 "Declined: arithmetic over elapsed time."),
+                 "Declined: arithmetic over elapsed time. An accepted timeout value has passed a test NaN fails (C19-R2; found F30, repaired)."),
         "note": _TRUST + "F14 (tunnel set-up time through a CONNECT proxy is not deducted from total) is a known finding confirmed against the real code.",
         "technique": "static analysis: effect-row / decision-table extraction with Herbrand terms (min/max normal form, comparisons as row constraints) on the Timeout helpers, event-order typestate on _make_request / request / getresponse with helper inlining",
     },
